@@ -217,6 +217,24 @@ fn c12_overlay_parent_rejected(dir: &str, nonblocking: bool) -> bool {
     rejected && root_unchanged && k7 == None
 }
 
+/// C04 / C17 (driver, run under strace): rollback log with a retained length of 1 and deltas larger than
+/// a 64 MiB segment, so that every commit rolls the log over to a new segment file and prunes (unlinks)
+/// the oldest one. A marker on stderr separates the commits in the trace.
+fn c04_rollover(dir: &str) -> bool {
+    let _ = std::fs::remove_dir_all(dir);
+    let mut o = opts(dir, true);
+    o.max_rollback_log_len(1);
+    let db: Db = Nomt::open(o).unwrap();
+    for round in 0..5u8 {
+        eprintln!("verif-commit-begin {}", round);
+        commit(&db, vec![(key(1), Some(vec![round; 66 * 1024 * 1024]))]);
+    }
+    eprintln!("verif-commit-begin end");
+    let n = std::fs::read_dir(dir).unwrap().filter(|e| e.as_ref().unwrap().file_name().to_string_lossy().starts_with("rollback.")).count();
+    println!("rollback segment files at the end: {}", n);
+    true
+}
+
 /// C14 (driver): build the database that `c14_commit_for_injection` commits to.
 fn c14_prepare(dir: &str) -> bool {
     let _ = std::fs::remove_dir_all(dir);
@@ -373,6 +391,7 @@ fn main() {
         "c20_fresh_and_reopen" => c20_fresh_and_reopen(dir),
         "c20_try_open" => c20_try_open(dir),
         "c14_prepare" => c14_prepare(dir),
+        "c04_rollover" => c04_rollover(dir),
         "c14_commit_for_injection" => c14_commit_for_injection(dir),
         "c20_drop_with_inflight_io" => c20_drop_with_inflight_io(dir),
         "c20_second_open" => c20_second_open(dir),
